@@ -26,7 +26,18 @@ def gen_histories(ctx, label, n):
             # "exceeded" is strict, the results must be presented, not Timeout
             crits = [] if bf else lpcommon.gen_crits(rng, ast, names=rng.choice([[], ['maxsize'], ['mincost']]))
             argv = lpcommon.argv_of(ast['na'], twopl, pc, stab, crits, rng) + (['-bf'] if bf else [])
-            hist = [['solve', 0.012, 0], ['get_results'], ['get_results_long']]
+            hist = [['solve', 0.012, 0], ['get_debug'], ['get_results'], ['get_debug'], ['get_results_long'], ['get_debug']]
+            yield dict(text=instgen.render(ast), na=ast['na'], twopl=twopl, pc=pc, stab=stab, bf=bf,
+                       crits=[[c, x] for c, x in crits], argv=argv, history=hist, ast=ast)
+            continue
+        if i % 13 == 7:
+            # a run that exceeds its limit (5 ms limit, 10 ms per scripted solve): every getter before and after every
+            # other one while the Solver is in the timed-out state, then a re-solve without limit
+            crits = [] if bf else lpcommon.gen_crits(rng, ast, n=rng.choice([0, 1, 2]))
+            argv = lpcommon.argv_of(ast['na'], twopl, pc, stab, crits, rng) + (['-bf'] if bf else [])
+            gs = OPS[1:]
+            rng.shuffle(gs)
+            hist = [['solve', 0.005, 0]] + [[g] for g in gs] + [[g] for g in gs] + [['solve', None, 0], [gs[0]], [gs[-1]]]
             yield dict(text=instgen.render(ast), na=ast['na'], twopl=twopl, pc=pc, stab=stab, bf=bf,
                        crits=[[c, x] for c, x in crits], argv=argv, history=hist, ast=ast)
             continue
